@@ -100,9 +100,23 @@ func (e *enc) callWith(c *ssa.CallCommon, args []Val, site ssa.Instruction, pos 
 		}
 	}
 	rts := e.resultTypes(c)
+	if fc == nil && callee != nil && !c.IsInvoke() && c.StaticCallee() == callee && e.v.inRepo(callee) && e.canInline(callee) {
+		return e.inlineCall(callee, args, rts, pos)
+	}
 	if fc == nil {
 		// unknown callee: arbitrary effects, arbitrary results
 		if callee != nil && e.v.inRepo(callee) {
+			if callee.Blocks != nil && len(callee.FreeVars) == 0 && !e.discover {
+				dup := false
+				for _, x := range e.needContract {
+					if x == e.v.funcName(callee) {
+						dup = true
+					}
+				}
+				if !dup {
+					e.needContract = append(e.needContract, e.v.funcName(callee))
+				}
+			}
 			e.noteUncontracted(e.v.funcName(callee))
 		} else {
 			e.noteUncontracted(calleeName)
@@ -233,6 +247,18 @@ func (e *enc) currentNames() map[string]Val {
 		vars[k] = v
 		vars[k+"$0"] = v
 	}
+	if len(e.inl) > 0 {
+		// inside a helper encoded in place: the caller's names at the call site, then the helper's own parameters
+		fr := e.inl[len(e.inl)-1]
+		for k, v := range fr.outer {
+			vars[k] = v
+		}
+		for _, p := range fr.fn.Params {
+			if v, ok := e.vals[p]; ok {
+				vars[p.Name()] = v
+			}
+		}
+	}
 	for name, vs := range e.dbg {
 		if val, ok := e.pickNamed(name, vs, e.curBlock, false, e.curPos); ok {
 			vars[name] = val
@@ -253,6 +279,16 @@ func (e *enc) applyContract(fc *FuncContract, callee *ssa.Function, c *ssa.CallC
 	for i, n := range names {
 		if i < len(args) {
 			vars[n] = args[i]
+		}
+	}
+	// parameters of the callee renamed since its contract was written
+	for old, news := range e.v.renamesFor(callee) {
+		for _, nn := range news {
+			if v, ok := vars[nn]; ok {
+				if _, has := vars[old]; !has {
+					vars[old] = v
+				}
+			}
 		}
 	}
 	pre := copyState(e.state)
